@@ -692,8 +692,68 @@ func c04BufLen(v ssa.Value) int64 {
 		if n, ok := constInt(t.Len); ok {
 			return n
 		}
+	case *ssa.Call:
+		// bytes.Clone / slices.Clone of a slice expression of constant width: x[lo : lo+k], x[:k], x[a:b]
+		if o := calleeObj(t); o != nil && o.Pkg() != nil && (o.Pkg().Path() == "bytes" || o.Pkg().Path() == "slices") && o.Name() == "Clone" && len(t.Call.Args) == 1 {
+			if sl, ok := stripConv(t.Call.Args[0]).(*ssa.Slice); ok && sl.High != nil {
+				if sl.Low == nil {
+					if k, ok := constInt(sl.High); ok {
+						return k
+					}
+				} else if lo, ok := constInt(sl.Low); ok {
+					if hi, ok := constInt(sl.High); ok {
+						return hi - lo
+					}
+				} else if add, ok := sl.High.(*ssa.BinOp); ok && add.Op == token.ADD {
+					if add.X == sl.Low || c04SameCellLoad(add.X, sl.Low) {
+						if k, ok := constInt(add.Y); ok {
+							return k
+						}
+					} else if add.Y == sl.Low || c04SameCellLoad(add.Y, sl.Low) {
+						if k, ok := constInt(add.X); ok {
+							return k
+						}
+					}
+				}
+			}
+		}
 	}
 	return -1
+}
+
+// c04SameCellLoad: a and b are loads of the same local cell in one block with no store to it in between
+// (go/ssa does not merge them).
+func c04SameCellLoad(a, b ssa.Value) bool {
+	la, ok1 := a.(*ssa.UnOp)
+	lb, ok2 := b.(*ssa.UnOp)
+	if !ok1 || !ok2 || la.Op != token.MUL || lb.Op != token.MUL || la.X != lb.X || la.Block() != lb.Block() {
+		return false
+	}
+	if _, isAlloc := la.X.(*ssa.Alloc); !isAlloc {
+		return false
+	}
+	in := false
+	for _, ins := range la.Block().Instrs {
+		if ins == ssa.Instruction(la) || ins == ssa.Instruction(lb) {
+			if in {
+				return true
+			}
+			in = true
+			continue
+		}
+		if !in {
+			continue
+		}
+		switch x := ins.(type) {
+		case *ssa.Store:
+			if x.Addr == la.X {
+				return false
+			}
+		case ssa.CallInstruction:
+			return false // a call could write the cell through a closure
+		}
+	}
+	return false
 }
 
 // ---------------------------------------------------------------------------
